@@ -473,6 +473,25 @@ def _fmtreuse_check(case):
     return None
 
 
+def _wrappers_kept(text, ps):
+    """a block middleware hands failed blocks - duplicate-key wrappers among them - on as they are: the library built from
+    its results holds every such wrapper that went in (the same object), whatever happened to the block it duplicates"""
+    import bibtexparser
+    from bibtexparser import model as M
+    lib = bibtexparser.parse_string(text, parse_stack=[])
+    for spec in ps:
+        before = [b for b in lib.blocks if isinstance(b, M.DuplicateBlockKeyBlock)]
+        try:
+            lib = _probe(spec).transform(lib)
+        except (TypeError, ValueError):
+            return None
+        for d in before:
+            if not any(b is d for b in lib.blocks):
+                return ("a duplicate-key block that the middleware %r handed on is not in the resulting library any more: its blocks "
+                        "are %r" % (spec, [type(b).__name__ for b in lib.blocks]))
+    return None
+
+
 def _libmw_check(case):
     """every requested library-level middleware runs exactly once, in the requested order, on every document"""
     import bibtexparser
@@ -651,6 +670,10 @@ def oracle(case):
     text = DOCS[case["doc"]]
     if case["op"] == "parse":
         ps, am = case["ps"], case["am"]
+        if ps is not None and am is None:
+            f = _wrappers_kept(text, ps)
+            if f:
+                return f
         try:
             ct = case.get("ct", "list")
             got = bibtexparser.parse_string(text, parse_stack=_mk(ps, ct), append_middleware=_mk(am, ct))
